@@ -166,8 +166,7 @@ mutual
         if s.validators.all (fun v => schemaValidator v c) then none else some (.validation path)
   /-- what `_validate_field` finds wrong with one field -/
   def fieldProblem (W : World) : Nat → String → Cfg → String → SField → Option CErr
-    | _, path, c, k, .leaf fs m =>
-      if m.isInclude then none else
+    | _, path, c, k, .leaf fs _ =>
       (match c.get k with
        | some (.val v) => (match validate W.fe.toEnv fs v with
            | .ok _ => none
@@ -185,7 +184,8 @@ mutual
         | _ => none)
     | _, _, _, _, .virtual _ _ => none
     | _, _, _, _, .method => none
-  /-- the loop over the schema's fields (include, virtual and instance-method fields are skipped by `fieldProblem`) -/
+  /-- the loop over the schema's fields (virtual and instance-method fields are skipped by `fieldProblem`; an include field is a
+      filename field like any other: required means set — F61) -/
   def validateFields (W : World) : Nat → String → Cfg → List (String × SField) → Option CErr
     | _, _, _, [] => none
     | fuel, path, c, (k, f) :: rest =>
